@@ -10,6 +10,7 @@ use std::sync::{Arc, Mutex};
 
 pub mod lspclient;
 pub mod lspmodel;
+pub mod prog;
 
 /// Concretise one abstract character name.
 pub fn concretise_char(name: &str) -> &str {
